@@ -18,8 +18,8 @@ from vt.monitors import contracts, reach
 
 ID = 'C01'
 TIERS = {
-    'quick': dict(shards=16, cases=200, watchdog_s=900),
-    'thorough': dict(shards=16, cases=9000, watchdog_s=7000),
+    'quick': dict(shards=16, cases=800, watchdog_s=900),
+    'thorough': dict(shards=16, cases=30000, watchdog_s=7000),
 }
 RULE = ('case = frame spec (1-4 columns drawn from 25 recognised column kinds, null pattern none/one/two/many/all, '
         '0-60 rows, hostile field names) x rex off/on x transport dict/file x verify/detect x repair on/off; the '
